@@ -120,6 +120,34 @@ let () = iter_lines (fun line ->
          | _ -> if Gen_Holder.coq_IsEmpty !flag false then "empty" else "full") in
       st ^ ":" ^ (if !flag then "1" else "0")) ops in
     String.concat " " res
+  | ["ec"; _c; ht; throws; corrupt; n; i] ->
+    (* the GENERATED pvExtraCheck (Gen_ExtraCheckH / Gen_ExtraCheckT) with its primitives interpreted over the same container:
+       positions are indices 0..n-1 (n = end), the table / order was built from the ORIGINAL keys 1..n, the item at index i
+       now reads the corrupted key *)
+    let n = int_of_string n and i = int_of_string i and throws = (throws = "1") in
+    let key_at p = let p = int_of_string (string_of_z p) in
+      if p = i && corrupt = "1" then 96 else if p = i && corrupt = "2" then 0 else p + 1 in
+    let zeq a b = (string_of_z a = string_of_z b) in
+    let r =
+      if ht = "h" then
+        Gen_ExtraCheckH.pvExtraCheck throws zeq (fun p -> p)
+          (fun k -> let k = int_of_string (string_of_z k) in z_of_int (if k >= 1 && k <= n then k - 1 else -1))
+          (fun p -> z_of_int (key_at p)) (z_of_int i)
+      else
+        let shift d p = z_of_int (int_of_string (string_of_z p) + d) in
+        Gen_ExtraCheckT.pvExtraCheck throws (fun a b -> not (zeq a b)) (z_of_int 0) (z_of_int n) (shift (-1)) (shift 1)
+          (fun a b -> key_at a < key_at b) (z_of_int i) in
+    Printf.sprintf "ec=%d threw=%d" (if r then 1 else 0) (if throws then 1 else 0)
+  | ["sw"; _c; n1; n2] ->
+    (* the GENERATED TreeSet::Swap (Gen_TreeSwap) on the field names 1..8 *)
+    let z = z_of_int in
+    let (((((((a1, a2), a3), a4), b1), b2), b3), b4) = Gen_TreeSwap.coq_Swap (z 1) (z 2) (z 3) (z 4) (z 5) (z 6) (z 7) (z 8) in
+    let items lo n = if n = 0 then "-" else String.concat "," (Stdlib.List.init n (fun k -> string_of_int ((lo + k + 1) * 100))) in
+    let n1 = int_of_string n1 and n2 = int_of_string n2 in
+    (* contents follow the root / count fields: object a now owns what the names 5..8 denoted *)
+    let owner_a_is_b = (string_of_z a3 = "7") in
+    Printf.sprintf "%s a=%s b=%s" (String.concat " " (Stdlib.List.map string_of_z [a1; a2; a3; a4; b1; b2; b3; b4]))
+      (if owner_a_is_b then items 50 n2 else items 0 n1) (if owner_a_is_b then items 0 n1 else items 50 n2)
   | ["hs"; c; kind; _hintpos; hint_ok; idx; dst; src] ->
     let c = cat_of c in
     let src = key_sorted (zs src) and dst = key_sorted (zs dst) in
